@@ -3,6 +3,7 @@
 From Coq Require Import List ZArith NArith Bool Arith.
 Import ListNotations.
 From V Require Import Model.Align Model.SnapOps Model.Unmanaged Proofs.UnmanagedProofs.
+From V Require Import Model.TreeAssign Proofs.TreeAssignProofs.
 
 Theorem C10_unmanaged_never_generated :
   forall (F : flags) (old : list uleaf) (new : list Z),
@@ -51,6 +52,16 @@ Theorem C10_equal_all_keep_u :
   map u_val old = new -> kept_unmanaged (useq_result F old new) = unmanaged_of old.
 Proof. exact equal_all_keep_u. Qed.
 
+(* nested lists / tuples of ANY depth (Model/TreeAssign.v): no code is generated for a user-controlled part, none is duplicated or
+   reordered, and without fix none disappears *)
+Theorem C10_assign_unmanaged_subsequence :
+  forall (f : nat) (F : flags) (o : tree) (n : val), subseq (unms_r (assign f F o n)) (unms o).
+Proof. exact assign_unmanaged_subsequence. Qed.
+
+Theorem C10_assign_unmanaged_kept_nofix :
+  forall (f : nat) (F : flags) (o : tree) (n : val), f_fix F = false -> unms_r (assign f F o n) = unms o.
+Proof. exact assign_unmanaged_kept_nofix. Qed.
+
 Print Assumptions C10_unmanaged_never_generated.
 Print Assumptions C10_kept_unmanaged_subsequence.
 Print Assumptions C10_unmanaged_survive_without_fix.
@@ -59,3 +70,5 @@ Print Assumptions C10_managed_siblings_still_repaired.
 Print Assumptions C10_useq_fix_value_managed.
 Print Assumptions C10_unmanaged_matching_value_kept_by_prefix.
 Print Assumptions C10_equal_all_keep_u.
+Print Assumptions C10_assign_unmanaged_subsequence.
+Print Assumptions C10_assign_unmanaged_kept_nofix.
